@@ -53,7 +53,7 @@ func init() {
 
 func c08Pre(p *engine.Parent) error {
 	t0 := time.Now()
-	res, err := sites.Analyze("/repo", p.Root)
+	res, err := sites.Analyze(repoDir(), p.Root)
 	if err != nil {
 		return err
 	}
